@@ -54,9 +54,10 @@ def tasks(tier, seed):
                     ts.append({"part": "seq", "api": api, "first": first, "depth": depth(tier), "fire": fire, "skip": skip,
                                "name": "seq/%s/f%d/s%d/%d" % (api, fire, skip, first)})
         for prelude in ("connected", "reused-midmessage", "reused-midframe", "after-send_close"):
-            for first in range(8):
-                ts.append({"part": "seq", "api": api, "first": first, "depth": depth(tier) - 1, "fire": 0, "skip": 0, "prelude": prelude,
-                           "name": "seq/%s/%s/%d" % (api, prelude, first)})
+            for fire, skip in (((0, 0), (1, 0), (0, 1), (1, 1)) if prelude == "connected" else ((0, 0),)):
+                for first in range(8):
+                    ts.append({"part": "seq", "api": api, "first": first, "depth": depth(tier) - 1, "fire": fire, "skip": skip, "prelude": prelude,
+                               "name": "seq/%s/%s/f%d/s%d/%d" % (api, prelude, fire, skip, first)})
     return ts
 
 
@@ -212,15 +213,22 @@ def bytes_case_fire(b0, masked, n, api):
     return None
 
 
-def close_case(body, api, lenform=None):
+def close_case(body, api, lenform=None, cfg=None):
+    """cfg: None or (prelude, fire_cont_frame, skip_utf8_validation)"""
     frame = R.encode(R.CLOSE, body, lenform=lenform)
-    sock = env.ScriptSock(frame, at_end="timeout")
-    ws = env.make_ws(sock)
+    if cfg is None:
+        sock = env.ScriptSock(frame, at_end="timeout")
+        ws = env.make_ws(sock)
+    else:
+        ws, sock = env.prepared_ws(cfg[0], fire_cont_frame=bool(cfg[1]), skip_utf8_validation=bool(cfg[2]))
+        sock.stream += frame
     r = call_api(ws, api)
     if len(body) > 125:
         v = "reject"
     else:
         v = R.close_body_verdict(body)
+        if v == "reject" and cfg is not None and cfg[2] and len(body) >= 2 and R.close_code_verdict((body[0] << 8) | body[1]) != "reject":
+            v = "dontcare"  # only the reason is ill-formed and the user switched UTF-8 validation off
     if v == "dontcare":
         return None
     code = (body[0] << 8 | body[1]) if len(body) >= 2 else None
@@ -230,7 +238,10 @@ def close_case(body, api, lenform=None):
             sig = {"kind": "illegal-frame-not-rejected", "class": why, "api": api}
             if why == "close-code":
                 sig["range"] = code_bucket(code)
-            return (sig, "forbidden close frame (%s, code %r, body %.30r) not rejected: %.60r via %s" % (why, code, body, r, api))
+            if cfg is not None:
+                sig["cfg"] = "%s/f%d/s%d" % tuple(cfg)
+            return (sig, "forbidden close frame (%s, code %r, body %.30r) not rejected: %.60r via %s%s" % (
+                why, code, body, r, api, "" if cfg is None else " [connection %s, fire_cont_frame=%s, skip_utf8_validation=%s]" % (cfg[0], bool(cfg[1]), bool(cfg[2]))))
         return None
     if r[0] != "ret":
         return ({"kind": "legal-frame-rejected", "opclass": "close", "api": api, "outcome": r[0], "range": code_bucket(code)},
@@ -381,18 +392,20 @@ def run_task(desc):
             assert py_ok == ok, name
             cases.append(b"\x03\xe8" + reason)
             cases.append(b"\x0f\xa0" + b"x" + reason)
+        cfgs = [None] + [(pre, f, sk) for pre in ("fresh", "connected") for f in (0, 1) for sk in (0, 1) if (pre, f, sk) != ("fresh", 0, 0)]
         for body in cases:
             for api in ("recv_data_frame", "recv_frame", "recv"):
-                try:
-                    fail = close_case(body, api)
-                except Exception as e:
-                    v = as_violation(e)
-                    if v is None:
-                        raise
-                    fail = (dict(v.sig, api=api), v.what)
-                res["execs"] += 1
-                seen += 1
-                rec(fail, {"case": "close", "body": body, "api": api, "lenform": None})
+                for cfg in cfgs:
+                    try:
+                        fail = close_case(body, api, None, cfg)
+                    except Exception as e:
+                        v = as_violation(e)
+                        if v is None:
+                            raise
+                        fail = (dict(v.sig, api=api), v.what)
+                    res["execs"] += 1
+                    seen += 1
+                    rec(fail, {"case": "close", "body": body, "api": api, "lenform": None, "cfg": list(cfg) if cfg else None})
         # skip_utf8_validation: reason not checked, code still is
         res["samples"].append({"close_bodies": [c.hex() for c in cases[:8]]})
     else:
@@ -415,7 +428,7 @@ def replay(rep):
     if rep["case"] == "bytes":
         fail = bytes_case(rep["b0"], rep["masked"], rep["n"], rep["in_msg"], rep["api"], rep.get("fire", 0))
     elif rep["case"] == "close":
-        fail = close_case(rep["body"], rep["api"], rep.get("lenform"))
+        fail = close_case(rep["body"], rep["api"], rep.get("lenform"), tuple(rep["cfg"]) if rep.get("cfg") else None)
     else:
         h = SeqHarness(rep["api"], rep["first"], rep["depth"], rep.get("fire", 0), rep.get("skip", 0), rep.get("prelude", "fresh"))
         out, v, ch = replay_choices(h, rep["choices"])
